@@ -46,7 +46,30 @@ func c14SyncThenAck(c *Ctx) {
 		return
 	}
 	c.saw(qname(f))
-	wait := findSite(f, "Wait")
+	// the wait for the fsync: sync.WaitGroup.Wait here, or inside a same-package helper that waits and returns the sync error
+	var wait *Site
+	syncErrPat := []string{"syncErr", "!= nil"}
+	for _, ds := range p.deepSites(f, nameMatcher("Wait"), 2) {
+		ds := ds
+		if len(ds.Chain) == 0 {
+			wait = &ds.Site
+			break
+		}
+		h := ds.Chain[0].Callee
+		if h != nil && h.Signature.Results().Len() == 1 && h.Signature.Results().At(0).Type().String() == "error" {
+			always := true
+			for _, r := range returnsOf(ds.Site.Instr.Parent()) {
+				if !dominatesInstr(ds.Site.Instr, r.Ret) {
+					always = false
+				}
+			}
+			if always && len(ds.Chain) == 1 {
+				wait = &ds.Chain[0]
+				syncErrPat = []string{"." + h.Name() + "()", "!= nil"}
+				break
+			}
+		}
+	}
 	write := findSite(f, "WriteRecord")
 	if wait == nil || write == nil {
 		c.viol("sync-then-ack", "walWriter.appendSync", p.Pos(fnPos(f)), "appendSync does not write a record and wait for its sync")
@@ -81,7 +104,7 @@ func c14SyncThenAck(c *Ctx) {
 				return
 			}
 			d := p.mustHoldAt(in)
-			okSync, miss := everyDisjunctHas(d, []string{"^!", "syncErr", "!= nil"})
+			okSync, miss := everyDisjunctHas(d, append([]string{"^!"}, syncErrPat...))
 			okDom := dominatesInstr(wait.Instr, in)
 			okVal := strings.Contains(term(st.Val), "WriteRecord(")
 			c.check(okSync && okDom && okVal, "sync-then-ack", construct, p.Pos(posOf(in, fn)), "advanced to WriteRecord's offset only after Wait() with syncErr == nil",
@@ -98,7 +121,7 @@ func c14SyncThenAck(c *Ctx) {
 			continue
 		}
 		d := p.mustHoldAt(ret.Ret)
-		ok1, miss := everyDisjunctHas(d, []string{"^!", "syncErr", "!= nil"})
+		ok1, miss := everyDisjunctHas(d, append([]string{"^!"}, syncErrPat...))
 		c.check(ok1 && dominatesInstr(wait.Instr, ret.Ret), "sync-then-ack", "appendSync returns committed", p.Pos(posOf(ret.Ret, f)), "committed:true only after a successful sync",
 			"appendSync can acknowledge (committed:true) without a completed, error-free sync: "+miss)
 	}
@@ -110,7 +133,7 @@ func c14SyncThenAck(c *Ctx) {
 		if ok, _ := everyDisjunctHas(d, []string{"WriteRecord(", "!= nil"}); ok && len(d) > 0 {
 			failing = "WriteRecord failed"
 		}
-		if ok, _ := everyDisjunctHas(d, []string{"syncErr", "!= nil"}); ok && len(d) > 0 {
+		if ok, _ := everyDisjunctHas(d, syncErrPat); ok && len(d) > 0 {
 			failing = "sync failed"
 		}
 		if failing == "" {
@@ -145,8 +168,64 @@ func c14SyncThenAck(c *Ctx) {
 		c.und("abort-repairs", "appendSync", p.Pos(fnPos(f)), fmt.Sprintf("only %d failure returns recognised", na))
 	}
 	if ab := wsFunc(p, "walWriter", "abortUncommitted"); ab != nil {
-		s := findSite(ab, "closeAndRepairCurrent")
-		ok := s != nil && len(s.Args()) == 3 && strings.HasSuffix(term(s.Args()[1]), "currentWALSyncedOffset") && term(s.Args()[2]) == "true"
+		// role-based: abortUncommitted reaches the truncation primitive (repairWALTail) — directly or through same-package
+		// helpers — whenever there is an open writer, with the last synced offset as the cut point
+		ok := false
+		for _, ds := range p.deepSites(ab, nameMatcher("repairWALTail"), 3) {
+			if len(ds.Site.Args()) < 2 {
+				continue
+			}
+			// the offset argument, followed up the chain of helper parameters
+			v := ds.Site.Args()[1]
+			for i := len(ds.Chain) - 1; i >= 0 && v != nil; i-- {
+				prm, isParam := v.(*ssa.Parameter)
+				if !isParam {
+					break
+				}
+				var nv ssa.Value
+				for k, q := range prm.Parent().Params {
+					if q == prm && k < len(ds.Chain[i].Args()) {
+						nv = ds.Chain[i].Args()[k]
+					}
+				}
+				v = nv
+			}
+			if v == nil || !strings.HasSuffix(term(v), "currentWALSyncedOffset") {
+				continue
+			}
+			// nothing but the presence of a writer (and the outcome of closing it, both outcomes) gates the repair
+			d := p.mustHoldDeep(ds)
+			gated, closeOK := false, false
+			for _, cj := range d {
+				bare := ""
+				okClose := true
+				for a := range cj {
+					switch {
+					case a == "true" || strings.Contains(a, ".writer == nil") || strings.Contains(a, ".writer != nil"):
+					case strings.Contains(a, "closeCurrent()") || strings.Contains(a, ".Close()"):
+						// !(close == nil) / (close != nil): the failed-close arm
+						for _, f := range equivForms(a) {
+							if strings.HasPrefix(f, "(") && strings.Contains(f, "closeCurrent() != nil") {
+								okClose = false
+							}
+						}
+					case identRe.FindString(a) == a:
+						bare = a // a boolean parameter; its argument must be the constant true (atom "true" of the same disjunct)
+					default:
+						gated = true
+					}
+				}
+				if bare != "" && !cj["true"] {
+					gated = true
+				}
+				if okClose {
+					closeOK = true
+				}
+			}
+			if len(d) > 0 && !gated && closeOK {
+				ok = true
+			}
+		}
 		c.check(ok, "abort-repairs", "abortUncommitted → closeAndRepairCurrent(syncedOffset, force)", p.Pos(fnPos(ab)), "forces a truncation to the last synced offset", "abortUncommitted no longer forces a repair to currentWALSyncedOffset")
 	} else {
 		c.und("abort-repairs", "abortUncommitted", "", "anchor not found")
@@ -231,7 +310,7 @@ func c14IndexAfterCommit(c *Ctx) {
 				continue
 			}
 			nm := rootOf(s.Fn).Name()
-			c.check(allow[nm], "index-after-commit", mut+" ← "+nm, p.Pos(s.Pos()), "called from the committed path / replay", mut+" is called from "+nm+", outside the committed-flush and replay paths")
+			c.check(allow[nm] || p.calledOnlyFromAny(s.Fn, allow, 0), "index-after-commit", mut+" ← "+nm, p.Pos(s.Pos()), "called from the committed path / replay", mut+" is called from "+nm+", outside the committed-flush and replay paths")
 		}
 	}
 	c.floor("index-after-commit", 8)
@@ -327,12 +406,18 @@ func c14PruneFilter(c *Ctx) {
 			c.und("prune-filter-agreement", sp.fn, "", "anchor not found")
 			continue
 		}
-		s := findSite(f, sp.callee)
-		if s == nil {
+		dss := p.deepSites(f, nameMatcher(sp.callee), 2)
+		if len(dss) == 0 {
 			c.viol("prune-filter-agreement", sp.fn, p.Pos(fnPos(f)), sp.fn+" no longer adds live entries")
 			continue
 		}
-		ok, miss := everyDisjunctHas(p.mustHoldAt(s.Instr), []string{"^!", "GetHeight() <= s.prunedUpToHeight"})
+		s := dss[0].Site
+		ok, miss := true, ""
+		for _, ds := range dss {
+			if o, m := everyDisjunctHas(p.mustHoldDeep(ds), []string{"^!", "GetHeight() <= s.prunedUpToHeight"}); !o {
+				ok, miss, s = false, m, ds.Site
+			}
+		}
 		c.check(ok, "prune-filter-agreement", sp.fn+" → addLiveEntry", p.Pos(s.Pos()), "entries at or below the watermark are skipped", "entries at or below the prune watermark are no longer filtered: "+miss)
 	}
 	// SetWALEntry / DeleteWALEntries append only above the watermark
